@@ -41,6 +41,34 @@ fn generic_vec_and_specific_vec() {
 }
 
 #[test]
+fn chain_of_specializing_impls() {
+    // The last impl specializes both of the others, and the second one
+    // specializes the first: the specialization graph is not a tree.
+    lowering_success! {
+        program {
+            trait Foo { }
+            struct Vec<T> { }
+            struct Bar { }
+            impl<T> Foo for T { }
+            impl<T> Foo for Vec<T> { }
+            impl Foo for Vec<Bar> { }
+        }
+    }
+
+    lowering_success! {
+        program {
+            trait Foo { }
+            struct Vec<T> { }
+            struct Bar { }
+            impl Foo for Vec<Vec<Bar>> { }
+            impl<T> Foo for Vec<Vec<T>> { }
+            impl<T> Foo for T { }
+            impl<T> Foo for Vec<T> { }
+        }
+    }
+}
+
+#[test]
 fn concrete_impl_and_blanket_impl() {
     lowering_success! {
         program {
